@@ -32,8 +32,10 @@ class DriverMixin:
             st.ghost[g] = SV(t, z3.Const(g + "0", ty.sort_of(t)))
             self.model_vars["ghost:" + g] = st.ghost[g]
         # static class of reference parameters
+        self._entry_phase = True
         for name, v in params.items():
             self.type_facts(st, v)
+        self._entry_phase = False
         self.entry_locals = dict(params)
         for ax in self.reg.axioms:
             st.assume(self.axiom_formula(ax))
@@ -44,6 +46,8 @@ class DriverMixin:
 
     def type_facts(self, st, v):
         t = v.t
+        if isinstance(t, ty.RefT) and getattr(self, "_entry_phase", False):
+            st.assume(ty.born(v.e) <= 0)
         if isinstance(t, ty.RefT) and t.cls in self.reg.records:
             subs = [s for s in self.reg.subclasses(t.cls) if not self.reg.records[s].abstract] or self.reg.subclasses(t.cls)
             st.assume(z3.Or(*[ty.typeof(v.e) == self.reg.records[s].cid for s in subs]))
